@@ -12,6 +12,7 @@ import ReqVerif.Model.ReqFile
 import ReqVerif.Model.Frontends
 import ReqVerif.Model.Repos
 import ReqVerif.Model.Cache
+import ReqVerif.Model.SolutionText
 /-!
 rvdriver: line protocol between the Python harness and the executable models.
 One JSON object per input line (`{"op": ..., ...}`), one JSON value per output line.
@@ -296,6 +297,27 @@ def opScanPage (j : Json) : Json :=
   Json.mkObj [("page", match r.1 with | .ok _ => Json.str "ok" | .empty => Json.str "empty" | .error st => Json.num (JsonNumber.fromNat st)),
               ("requests", Json.num (JsonNumber.fromNat r.2))]
 
+/-! ### solution text: writer and loader (C06) -/
+
+def optStr (o : Option (List Char)) : Json := match o with | some s => Json.str (str s) | none => Json.null
+
+def parsePin (j : Json) : ST.Pin :=
+  { name := jChars j "name", ver := jChars j "ver", hash := (jOptStr j "hash").map String.toList,
+    url := (jOptStr j "url").map String.toList, entries := (jStrs j "entries").map String.toList }
+
+def opWriteSolution (j : Json) : Json :=
+  let o : ST.Opts := { hashes := jBool j "hashes", urls := jBool j "urls" }
+  jsonStrs ((ST.writeMulti o ((jStrs j "directives").map String.toList) ((jArr j "pins").map parsePin)).map str)
+
+def opLoadSolution (j : Json) : Json :=
+  let r := ST.loadLines ((jStrs j "lines").map String.toList)
+  let parsed := Json.arr (r.1.map fun p =>
+      Json.mkObj [("req", str p.req), ("hash", optStr p.hash), ("url", optStr p.url), ("sources", jsonStrs (p.sources.map str))]).toArray
+  Json.mkObj [("parsed", parsed), ("error", match r.2 with
+    | some .notAnnotated => Json.str "RepositoryInitializationError"
+    | some .emptySource => Json.str "ValueError"
+    | none => Json.null)]
+
 def dispatch (op : String) (j : Json) : Json :=
   match op with
   | "merge" => opMerge j
@@ -311,6 +333,8 @@ def dispatch (op : String) (j : Json) : Json :=
   | "frontends" => opFrontends j
   | "multi" => opMulti j
   | "cache" => opCache j
+  | "write-solution" => opWriteSolution j
+  | "load-solution" => opLoadSolution j
   | "scan-page" => opScanPage j
   | "requires-python" => opRequiresPython j
   | "wheel-name" => opWheelName j
